@@ -349,8 +349,31 @@ pub fn run_one(
     }
 }
 
+// ----- heartbeat of long runs (fault-enumeration engines re-execute one history
+// hundreds of times): the hang monitor measures the time since the last sign of
+// life of a worker, not since the start of its run
+
+static HEARTBEATS: [AtomicU64; 256] = [const { AtomicU64::new(0) }; 256];
+static EPOCH: std::sync::OnceLock<Instant> = std::sync::OnceLock::new();
+thread_local! {
+    static WORKER: std::cell::Cell<usize> = const { std::cell::Cell::new(usize::MAX) };
+}
+
+fn epoch_ms() -> u64 {
+    EPOCH.get_or_init(Instant::now).elapsed().as_millis() as u64
+}
+
+/// Called by engines between the sub-runs of one run.
+pub fn heartbeat() {
+    let w = WORKER.with(|c| c.get());
+    if w < HEARTBEATS.len() {
+        HEARTBEATS[w].store(epoch_ms(), Ordering::Relaxed);
+    }
+}
+
 pub fn run_batch(cfg: &BatchCfg<'_>, f: &RunFn) -> BatchResult {
     let start = Instant::now();
+    let _ = epoch_ms();
     let next = AtomicU64::new(0);
     let stop_at = AtomicU64::new(u64::MAX);
     let capped = AtomicBool::new(false);
@@ -371,10 +394,11 @@ pub fn run_batch(cfg: &BatchCfg<'_>, f: &RunFn) -> BatchResult {
             s.spawn(move || {
                 while active.load(Ordering::SeqCst) > 0 {
                     std::thread::sleep(Duration::from_millis(200));
-                    let now = start.elapsed().as_millis() as u64;
-                    for (idx, t0) in current.iter() {
+                    let now = epoch_ms();
+                    for (w, (idx, t0)) in current.iter().enumerate() {
                         let i = idx.load(Ordering::SeqCst);
-                        if i > 0 && now.saturating_sub(t0.load(Ordering::SeqCst)) > cfg.hang_after.as_millis() as u64 {
+                        let alive = t0.load(Ordering::SeqCst).max(HEARTBEATS[w.min(255)].load(Ordering::Relaxed));
+                        if i > 0 && now.saturating_sub(alive) > cfg.hang_after.as_millis() as u64 {
                             // still the same run?
                             if idx.load(Ordering::SeqCst) == i {
                                 on_hang(i - 1, mix(cfg.seed, i - 1));
@@ -399,6 +423,7 @@ pub fn run_batch(cfg: &BatchCfg<'_>, f: &RunFn) -> BatchResult {
                 .stack_size(16 << 20)
                 .spawn_scoped(s, move || {
                     let mut agg = Agg::default();
+                    WORKER.with(|c| c.set(w));
                     loop {
                         current[w].0.store(0, Ordering::SeqCst);
                         let i = next.fetch_add(1, Ordering::SeqCst);
@@ -411,7 +436,7 @@ pub fn run_batch(cfg: &BatchCfg<'_>, f: &RunFn) -> BatchResult {
                             break;
                         }
                         let run_seed = mix(cfg.seed, i);
-                        current[w].1.store(start.elapsed().as_millis() as u64, Ordering::SeqCst);
+                        current[w].1.store(epoch_ms(), Ordering::SeqCst);
                         current[w].0.store(i + 1, Ordering::SeqCst);
                         let mut ch = Choices::generate(run_seed);
                         let record = (i as usize) < cfg.samples;
